@@ -12,6 +12,12 @@ def hook_commits():
         return []
 
 CHECKS = {
+ "C13": dict(
+    level="exploration",
+    technique="complete enumeration of the getter collision/rejection space + rapid-generated accepted configurations whose generated type is reflected (method set with fully-qualified signatures) and whose getters / must-getters are called in a probe, against the documented rule",
+    text="The rejection side (reserved names from reflection over the pinned runtime, Must/InContext, must_getter truth table, duplicate getters) is enumerated completely; on the accepted side the exact exported method set, signatures and names of the generated type are compared with the rule for thousands of configurations, and getter results are compared with Get through the DI model (including error and panic paths).",
+    note="Trusts reflection in the probe and in the harness (same pinned runtime); unexported getters are only compiled, not called.",
+    ref="DESIGN.md §4 C13"),
  "C02": dict(
     level="exploration",
     technique="rapid-generated accepted configurations compiled and executed against the real runtime; model-based oracle: a DI interpreter written from the documentation predicts every object graph; comparison modulo a bijection of instance serial numbers",
